@@ -145,6 +145,17 @@ pub const SWP_ELEMENT: u8 = 2; // other.at_mut(j)
 pub const SWP_HANDLE: u8 = 3; // other.remove(j) handle, dropped afterwards
 pub const SWP_KINDS: u8 = 4;
 
+// ---- TypeProbe kinds (C04) -------------------------------------------------------------
+pub const TP_PUSH_WRAPPER: u8 = 0;
+pub const TP_INSERT_WRAPPER: u8 = 1;
+pub const TP_PUSH_RAW: u8 = 2;
+pub const TP_INSERT_RAW: u8 = 3;
+pub const TP_PUSH_HANDLE: u8 = 4;
+pub const TP_SPLICE: u8 = 5;
+pub const TP_SWAP: u8 = 6;
+pub const TP_DOWNCAST: u8 = 7;
+pub const TP_KINDS: u8 = 8;
+
 /// One scenario step: flat, so that serialisation, deletion and field-wise
 /// simplification are uniform. All indices are *raw*; the model interprets them
 /// relative to the current state, so every subsequence of a scenario is a
@@ -165,6 +176,10 @@ pub struct Step {
     pub script: Vec<u8>,
 }
 impl Step {
+    /// range form of a TypeProbe splice (Step.form holds the operand order there)
+    pub fn form2(&self) -> u8 {
+        self.sink
+    }
     pub fn new(op: Op) -> Step {
         Step { op, slot: 0, other: 1, via: 0, kind: 0, sink: 0, form: 0, a: 0, b: 0, c: 0, n: 0, script: Vec::new() }
     }
